@@ -2,7 +2,10 @@ module srcfacts
 
 go 1.21
 
-require github.com/ProtonMail/gluon v0.0.0
+require (
+	github.com/ProtonMail/gluon v0.0.0
+	golang.org/x/text v0.9.0
+)
 
 require (
 	github.com/bradenaw/juniper v0.12.0 // indirect
